@@ -49,17 +49,8 @@ Qed.
 
 Lemma drain_timers ev : forall s s' dr ks, drain s ev = (s', dr, ks) -> timers s' = timers s /\ narm s' = narm s.
 Proof.
-  induction ev as [|e t IH]; intros s s' dr ks; cbn.
-  - intros H; injection H as <- _ _. auto.
-  - destruct e.
-    + destruct (hval s p).
-      * destruct (drain s t) as [[a b] c0] eqn:E. intros H; injection H as <- _ _. eapply IH; eauto.
-      * intros H. apply IH in H. exact H.
-    + intros H. apply IH in H. exact H.
-    + destruct (drain (set_hsink (set_hopen s p false) p None) t) as [[a b] c0] eqn:E. intros H; injection H as <- _ _.
-      apply IH in E. exact E.
-    + intros H. eapply IH; eauto.
-    + intros H. eapply IH; eauto.
+  apply (drain_rel (fun s s' => timers s' = timers s /\ narm s' = narm s)); intros; setters; auto.
+  destruct H, H0. split; congruence.
 Qed.
 
 Lemma task_dies_timers s k s' ev : task_dies s k = (s', ev) -> timers s' = timers s /\ narm s' = narm s.
